@@ -108,6 +108,36 @@ type crashImage struct {
 	acked    int // number of batches whose call had returned
 	inflight int // index of the batch in flight, or -1
 	gcRan    bool
+	opIdx    int // index of the operation during which the image was cut
+}
+
+// tieKeys returns the (cf/key) names that currently have two stored copies of
+// one version with at least one of them below L0. Plain-API overwrites all
+// carry version 2^64-1; which of two such copies a level's ingest buffer
+// returns (and keeps when it is merged) does not depend on recency - known
+// finding, root C01.
+func tieKeys(w *World, nkeys int, into map[string]bool) {
+	if w.DB == nil {
+		return
+	}
+	for _, cf := range cfs {
+		for ki := 0; ki < nkeys && ki < len(keyNames); ki++ {
+			byVer := map[uint64][]string{}
+			for _, cp := range w.DB.VerifLocate(cf, []byte(keyNames[ki])) {
+				byVer[cp.Version] = append(byVer[cp.Version], Where(cp))
+			}
+			for _, wh := range byVer {
+				if len(wh) < 2 {
+					continue
+				}
+				for _, x := range wh {
+					if x == "Ln" || x == "Ln-ingest" {
+						into[fmt.Sprintf("%d/%s", cf, keyNames[ki])] = true
+					}
+				}
+			}
+		}
+	}
 }
 
 type recEntry struct {
@@ -181,6 +211,8 @@ func execCrash(t *testing.T, c *sim.Case, prop string) *sim.Result {
 		imgRoot := filepath.Join(sim.Scratch(), fmt.Sprintf("img%d", worldSeq))
 		defer os.RemoveAll(imgRoot)
 		cutting := true
+		// tieAfter[i]: keys that had an equal-version tie below L0 at the end of some operation <= i
+		tieAfter := make([]map[string]bool, len(c.Ops))
 		w.FS.BeforeMutation = func(ev sim.FSEvent, torn int64) {
 			if !cutting || ev.Seq < skip || ev.Seq%every != phase%every || len(images) >= maxImg {
 				return
@@ -192,7 +224,7 @@ func execCrash(t *testing.T, c *sim.Case, prop string) *sim.Result {
 			if err := sim.CopyTree(w.Dir, dir); err != nil {
 				return
 			}
-			images = append(images, &crashImage{dir: dir, ev: ev, torn: torn, acked: len(batches), inflight: inflight, gcRan: GCRan(w)})
+			images = append(images, &crashImage{dir: dir, ev: ev, torn: torn, acked: len(batches), inflight: inflight, gcRan: GCRan(w), opIdx: w.step})
 			if torn > 0 {
 				res.Faults["crash_image_torn_write"]++
 			} else {
@@ -206,7 +238,19 @@ func execCrash(t *testing.T, c *sim.Case, prop string) *sim.Result {
 		}
 		// pending holds the batch in flight; it becomes accepted when its call returns nil.
 		var post []sim.Op
+		cumTies := map[string]bool{}
+		snapTies := func(i int) {
+			if !plain || i < 0 || w.DB == nil {
+				return
+			}
+			tieKeys(w, nkeys, cumTies)
+			tieAfter[i] = map[string]bool{}
+			for k := range cumTies {
+				tieAfter[i][k] = true
+			}
+		}
 		for i, op := range c.Ops {
+			snapTies(i - 1)
 			w.step = i
 			sim.Beat()
 			res.Steps++
@@ -219,9 +263,11 @@ func execCrash(t *testing.T, c *sim.Case, prop string) *sim.Result {
 				cfi, ki := int(op.A)%3, int(op.B)%nkeys
 				wr := batchWrite{cf: cfs[cfi], key: keyNames[ki], del: op.K == "del"}
 				if !wr.del {
-					wr.val = MakeValue(fmt.Sprintf("s%d:", i), op.C, w.Opt.ValueThreshold)
-					if len(wr.val) == 0 {
-						wr.val = []byte{'e'}
+					// every written value is unique, so a recovered value names its write
+					tag := fmt.Sprintf("s%d:", i)
+					wr.val = MakeValue(tag, op.C, w.Opt.ValueThreshold)
+					if len(wr.val) < len(tag) {
+						wr.val = []byte(tag)
 					}
 				}
 				// Images cut during the call see this batch as in flight: it will be
@@ -281,6 +327,7 @@ func execCrash(t *testing.T, c *sim.Case, prop string) *sim.Result {
 				return
 			}
 		}
+		snapTies(len(c.Ops) - 1)
 		// The last in-flight information for images cut during a txn: the batch
 		// that was in flight is batches[img.inflight] if that commit succeeded.
 		cutting = false
@@ -289,7 +336,11 @@ func execCrash(t *testing.T, c *sim.Case, prop string) *sim.Result {
 
 		for n, img := range images {
 			sim.Beat()
-			checkImage(t, c, res, prop, n, img, batches, plain, post)
+			var ties map[string]bool
+			if img.opIdx >= 0 && img.opIdx < len(tieAfter) {
+				ties = tieAfter[img.opIdx]
+			}
+			checkImage(t, c, res, prop, n, img, batches, plain, post, ties)
 			_ = os.RemoveAll(img.dir)
 		}
 	})
@@ -302,7 +353,7 @@ var rejected [][]batchWrite
 
 func phaseOf(ev sim.FSEvent) string { return ev.Op + "_" + ev.Class }
 
-func checkImage(t *testing.T, c *sim.Case, res *sim.Result, prop string, n int, img *crashImage, batches [][]batchWrite, plain bool, post []sim.Op) {
+func checkImage(t *testing.T, c *sim.Case, res *sim.Result, prop string, n int, img *crashImage, batches [][]batchWrite, plain bool, post []sim.Op, ties map[string]bool) {
 	iw := &World{T: t, C: c, Res: res, Dir: img.dir}
 	iw.FS = sim.NewSimFS(img.dir)
 	iw.step = n
@@ -349,6 +400,34 @@ func checkImage(t *testing.T, c *sim.Case, res *sim.Result, prop string, n int, 
 	dump := Dump(iw)
 	rec := recoveredSeqs(dump)
 	res.Checks++
+	// equal-version copies below L0 (plain overwrites): seen while the image was
+	// being produced, or present in the image itself
+	tied := map[string]bool{}
+	if plain {
+		for k := range ties {
+			tied[k] = true
+		}
+		tieKeys(iw, int(c.CfgInt("keys", 3)), tied)
+	}
+	tieSig := func(base map[string]string, keys ...string) map[string]string {
+		if !plain {
+			return base
+		}
+		out := map[string]string{"equal_version_tie": "no"}
+		for k, v := range base {
+			out[k] = v
+		}
+		for _, k := range keys {
+			if tied[k] {
+				out["equal_version_tie"] = "yes"
+			}
+		}
+		return out
+	}
+	allKeys := make([]string, 0, len(tied))
+	for k := range tied {
+		allKeys = append(allKeys, k)
+	}
 
 	// Which prefixes of the accepted batches does the recovered state equal?
 	match := -1
@@ -378,7 +457,7 @@ func checkImage(t *testing.T, c *sim.Case, res *sim.Result, prop string, n int, 
 				if len(rs) == 1 && rs[0].readErr == "" && rs[0].del == ms[0].del && (rs[0].del || bytes.Equal(rs[0].val, ms[0].val)) {
 					continue
 				}
-				res.Violate(n, "acked_write_lost", sig, "%s: key %s: recovered %s, acknowledged %s", where, k, descRec(rs), descMod(ms))
+				res.Violate(n, "acked_write_lost", tieSig(sig, k), "%s: key %s: recovered %s, acknowledged %s; copies: %s", where, k, descRec(rs), descMod(ms), DescribeCopies(iw, ms[0].cf, []byte(ms[0].key)))
 				continue
 			}
 			bad := len(rs) < len(ms)
@@ -400,9 +479,9 @@ func checkImage(t *testing.T, c *sim.Case, res *sim.Result, prop string, n int, 
 				for k, v := range sig {
 					s2[k] = v
 				}
-				res.Violate(n, "not_a_prefix", s2, "%s: recovered contents equal no prefix of the %d accepted batches: %s", where, len(batches), descDump(dump))
+				res.Violate(n, "not_a_prefix", tieSig(s2, allKeys...), "%s: recovered contents equal no prefix of the %d accepted batches: %s", where, len(batches), descDump(dump))
 			case sync && match < img.acked:
-				res.Violate(n, "prefix_below_acked", sig, "%s: recovered prefix %d < acknowledged %d", where, match, img.acked)
+				res.Violate(n, "prefix_below_acked", tieSig(sig, allKeys...), "%s: recovered prefix %d < acknowledged %d", where, match, img.acked)
 			}
 			for _, d := range dump {
 				if d.ReadErr != "" {
